@@ -28,17 +28,27 @@ theorem C26_full_fails :
   revert this
   decide
 
+/-- Second way the full statement fails: a crash 3 bytes into the footer of the NEW
+    segment file of a rollover leaves a file `Queue.Open` cannot open at all
+    (known finding `torn-new-segment-unopenable`). -/
+def newSegTorn : List Op :=
+  [.openQ 1000 24, .append [161,1,170,170,170,170,170,170,170,170], .append [162,2,187,187,187,187,187,187,187,187],
+   .crashSeg [163,3] 3, .cur]
+
+theorem C26_newseg_fails : holdsOn (trace init newSegTorn) = false := by decide
+
 /-- **C26 for the model, every history with crashes at every cut** (unbounded):
     append / current / advance / scanner pass / clean reopen / crash inside an
-    append or inside an advance at ANY byte of its write, over any number of
-    segments — the statement checker accepts the model's trace (entries come back
+    append, inside an advance or inside the creation of a new segment file, at ANY
+    byte of the write, over any number of segments — the statement checker accepts the model's trace (entries come back
     in append order, nothing unconsumed is lost by a reopen or crash, nothing that
     was not appended is delivered, a rejected append changes nothing), provided
     * `ValidOp`: segment size ≥ 8, appended entries non-empty,
     * fewer than 2^63 bytes are appended in total,
     * `GoodRun`: no crash leaves a torn file whose last 8 bytes pass for a head
-      position (`TornObs.footerLike`) — exactly the negation of the known finding
-      `torn-append-footer-misread` / `torn-advance-footer-misread` (F10). -/
+      position (`TornObs.footerLike`), nor a new segment file of 1..7 bytes — exactly
+      the negation of the known findings `torn-append-footer-misread` /
+      `torn-advance-footer-misread` (F10) / `torn-new-segment-unopenable`. -/
 theorem C26_holdsOn_partial (ops : List Op) (hv : ∀ op ∈ ops, ValidOp op)
     (hsmall : cost ops + 8 < 2^63) (hg : GoodRun init ops) :
     holdsOn (trace init ops) = true := by
